@@ -1,4 +1,12 @@
 #!/bin/bash
-# usage: tools_mut.sh <PID> <file> <sed-expr>   : apply a mutation to /repo, run check, revert
-pid=$1; f=$2; expr=$3
-cd /repo && sed -i "$expr" $f && (git diff --stat | head -3; cd /verif && ./check $pid 2>&1 | grep -E "VIOLATION|UNDECIDED|failed obligation|tier=" | cut -c1-260 | head -12); cd /repo && git checkout -- . 
+# usage: tools_mut.sh <PID> <group> <file-relative-to-repo> <sed-expr>
+# Applies a mutation to a SCRATCH COPY of /repo's include/ and source/ (never to /repo itself), runs the
+# group's check against that copy (VF_REPO), prints the verdict lines.  Safe to run in parallel for different groups.
+pid=$1; grp=$2; f=$3; expr=$4
+scratch=/tmp/vfmut/$grp.$$
+mkdir -p $scratch && rsync -a --delete /repo/include /repo/source $scratch/ || exit 9
+sed -i "$expr" $scratch/$f
+if diff -q /repo/$f $scratch/$f >/dev/null; then echo "MUTATION DID NOT CHANGE THE FILE"; rm -rf $scratch; exit 9; fi
+diff /repo/$f $scratch/$f | head -8
+cd /verif && VF_REPO=$scratch VF_NO_EVIDENCE=1 VF_OUT=/tmp/vfmut/out.$grp.$$ ./check $pid --group $grp 2>&1 | grep -E "VIOLATION|UNDECIDED|failed obligation|tier=" | cut -c1-300 | head -14
+rm -rf $scratch /tmp/vfmut/out.$grp.$$
